@@ -245,6 +245,21 @@ def build_call(sc):
                             oqupy.PtTebdParameters(dt=dt, epsrel=1e-6),
                             dynamics_sites=[0, 1])
         return lambda: tebd.compute(nsteps, progress_type=prog)
+    if api in ("pttebd_multithread", "pttebd_multiprocess"):
+        pt = simple_pt(kind if kind in ("shape",) else None,
+                       fault["at"] if fault else None)
+        nn = 4
+        chain = oqupy.SystemChain([2] * nn)
+        for s in range(nn):
+            chain.add_site_hamiltonian(s, 0.4 * sx)
+        for s in range(nn - 1):
+            chain.add_nn_hamiltonian(s, 0.5 * sz, sz)
+        tebd = oqupy.PtTebd(
+            oqupy.AugmentedMPS([rho0] * nn), chain, [pt] + [None] * (nn - 1),
+            oqupy.PtTebdParameters(dt=dt, epsrel=1e-6),
+            dynamics_sites=[0, 1],
+            backend_config={"parallel": api.split("_")[1]})
+        return lambda: tebd.compute(nsteps, progress_type=prog)
     raise ValueError(api)
 
 
@@ -349,6 +364,17 @@ def run_schedule_scenario(sc, out, before, u):
                                  name="vp-harness-releaser").start()
             if action == "update+exit":
                 pb.update(3)
+            if action == "update+callback+exit":
+                # the caller updates while the callback is held (it may
+                # block on the library's lock until the releaser fires),
+                # then the callback runs to completion, then the caller
+                # finishes
+                pb.update(3)
+                gate.set()
+                time.sleep(3 * SCALE)
+                for t in list(TIMERS):
+                    if t.in_callback:
+                        t.join(1.0)
             pb.exit()
             gate.set()
         else:
